@@ -3,6 +3,7 @@ import GlyModel.Front.Spec
 import GlyProofs.Front.TreeShape
 import GlyProofs.Mono.ReactLoop
 import GlyProofs.Front.Components
+import GlyProofs.Front.ComponentsFloat
 import GlyProofs.Props.C03
 /-
   C10 — Nothing is dropped silently: the meaning of `full`. (Property theorems only.)
@@ -142,6 +143,23 @@ theorem C10_connected_without_fragments (w : WalkCfg) (s : Start) (hf : s.floats
     components is nodes minus edges: each floating part, whatever its size, is one more component and `parse` reports not full. -/
 theorem C10_components_count (st : WState) (h : EdgesFresh st.nodes.length 0 st.edges) :
     components st + st.edges.length = st.nodes.length := components_fresh st h
+
+/-- **Floating parts are never full** – for every written glycan, any number of floating `{…}` parts of any size and shape: the walked
+    graph has exactly one component for the main glycan plus one per floating part (`components_walkStart`: every edge the walker adds
+    leads to a node that was never a child before, so it removes exactly one component), hence `parse` reports *not full* as soon
+    as there is a floating part, and the clause is void without one. -/
+theorem C10_fragments_not_full (w : WalkCfg) (s : Start) :
+    components (walkStart w s) = 1 + s.floats.length ∧
+    (s.floats ≠ [] → parseFull (walkStart w s) = false) ∧
+    (s.floats = [] → parseFull (walkStart w s) = (walkStart w s).full) := by
+  have h := components_walkStart w s
+  refine ⟨h, ?_, ?_⟩
+  · intro hne
+    have : 0 < s.floats.length := List.length_pos_iff.mpr hne
+    simp only [parseFull, h, Bool.and_eq_false_iff]
+    right; simp; omega
+  · intro he
+    simp [parseFull, h, he]
 
 /-- Non-vacuity: `{Fuc(a1-2)Gal(b1-?)}Gal(b1-4)Glc` – a two-residue floating part – has two components and is not full. -/
 theorem C10_fragment_example :
